@@ -16,6 +16,11 @@ Parses the sources with `ast` (never imports them) and renders
    `_linked_group` finds the target again (`get_by_pos(0)`);
  * the membership tests in front of every link assignment (`LinkContainer._accept`, `MultiTag.positions`,
    `MultiTag.extents`, `Feature.data`): WHAT is tested (`item` itself, not a name or an id) IN which container;
+ * the COMPLETE bodies of `LinkContainer._accept` and `SourceLinkContainer._accept`, statement by statement, in the
+   vocabulary of `NixModel/Store/AcceptShape.lean` (`AStmt`: id text resolved, entity required, membership by
+   object / source tree by object required, `return item`): a statement that lets an item through before the
+   membership test (a fast path for handles that "look like" the block's own) is outside the vocabulary; the
+   statements of `LinkContainer.extend` (`EStmt`: every item through `_accept` before the first link is written);
  * the comparisons by which `Container.__contains__` and `SourceLinkContainer._accept` decide that an entity is
    "this very object" (HDF5 object equality, not equality of names or ids).
 
@@ -231,6 +236,56 @@ def _membership(fn, where, var, exc="RuntimeError"):
     return out
 
 
+def _accept_body(fn, where, source):
+    """the statements of an `_accept` body as AStmt terms (`NixModel/Store/AcceptShape.lean`)"""
+    sts = _stmts(fn)
+    out = []
+    i = 0
+    while i < len(sts):
+        st = sts[i]
+        src = _u(st)
+        if isinstance(st, ast.If) and not st.orelse and _u(st.test) == "util.is_uuid(item)" and len(st.body) == 1 \
+                and _u(st.body[0]) == "item = self._inst_item(self._backend.get_by_id(item))":
+            out.append(".resolveId")
+            i += 1
+        elif _is_raise_if(st, "not hasattr(item, 'id')", "TypeError"):
+            out.append(".requireEntity")
+            i += 1
+        elif not source and _is_raise_if(st, "item not in self._itemstore", "RuntimeError"):
+            out.append(".requireMember")
+            i += 1
+        elif source and src == "h5g = item._h5group" and i + 3 < len(sts) \
+                and _u(sts[i + 1]) == "mine = h5g.group if hasattr(h5g, 'group') else h5g.dataset" \
+                and isinstance(sts[i + 2], ast.FunctionDef) and sts[i + 2].name == "is_item" \
+                and [_u(x) for x in _stmts(sts[i + 2])] == ["return src.id == item.id and src._h5group.group == mine"] \
+                and [a.arg for a in sts[i + 2].args.args] == ["src"] \
+                and _is_raise_if(sts[i + 3], "not self._itemstore._parent.find_sources(filtr=is_item)", "RuntimeError"):
+            out.append(".requireInSourceTree")
+            i += 4
+        elif src == "return item":
+            out.append(".returnItem")
+            i += 1
+        else:
+            raise _bad(where, st)
+    return "[" + ", ".join(out) + "]"
+
+
+def _extend_body(fn, where):
+    """the statements of `LinkContainer.extend` as EStmt terms"""
+    out = []
+    for st in _stmts(fn):
+        src = " ".join(_u(st).split())
+        if _is_raise_if(st, "not isinstance(items, Iterable)", "TypeError"):
+            out.append(".requireIterable")
+        elif src == "accepted = [self._accept(item) for item in items]":
+            out.append(".acceptEvery")
+        elif src == "for item in accepted: self._backend.create_link(item, item.id)":
+            out.append(".linkEvery")
+        else:
+            raise _bad(where, st)
+    return "[" + ", ".join(out) + "]"
+
+
 def _object_comparisons(fn):
     """`<a> == <b>` comparisons in a body, as source text"""
     out = []
@@ -303,14 +358,22 @@ def extract(repo):
     app = _stmts(_func(lc, "append", "container.py"))
     append_shape = [_u(s) for s in app]
 
+    accept_link = _accept_body(_func(lc, "_accept", "container.py"), "LinkContainer._accept", False)
+    extend_shape = _extend_body(_func(lc, "extend", "container.py"), "LinkContainer.extend")
+
     cont = _class(ctree, "Container", "container.py")
     contains_cmp = _object_comparisons(_func(cont, "__contains__", "container.py"))
     stree = _parse(repo, os.path.join("nixio", "source_link_container.py"))
     slc = _class(stree, "SourceLinkContainer", "source_link_container.py")
     source_cmp = _object_comparisons(_func(slc, "_accept", "source_link_container.py"))
+    accept_source = _accept_body(_func(slc, "_accept", "source_link_container.py"), "SourceLinkContainer._accept", True)
+    # SourceLinkContainer takes append / extend from LinkContainer
+    if [n.name for n in slc.body if isinstance(n, ast.FunctionDef) and n.name in ("append", "extend")]:
+        raise ExtractError("SourceLinkContainer overrides append / extend (the model takes them from LinkContainer)")
 
     L = []
     L.append("import NixModel.Pure.DimLinkPrim")
+    L.append("import NixModel.Store.AcceptShape")
     L.append("/-! GENERATED by harness/extract/linkshape.py from nixio/dimensions.py, container.py, "
              "source_link_container.py,\nmulti_tag.py, feature.py — do not edit. -/")
     L.append("namespace Nix.DimLink.Gen")
@@ -345,6 +408,13 @@ def extract(repo):
     L.append("def containsComparisons : List String := [%s]" % ", ".join(lean_str(x) for x in contains_cmp))
     L.append("/-- the `==` comparisons of `SourceLinkContainer._accept` -/")
     L.append("def sourceAcceptComparisons : List String := [%s]" % ", ".join(lean_str(x) for x in source_cmp))
+    L.append("")
+    L.append("/-- the complete body of `LinkContainer._accept` -/")
+    L.append("def acceptBody : List Nix.Store.AStmt := %s" % accept_link)
+    L.append("/-- the complete body of `SourceLinkContainer._accept` -/")
+    L.append("def sourceAcceptBody : List Nix.Store.AStmt := %s" % accept_source)
+    L.append("/-- the statements of `LinkContainer.extend` -/")
+    L.append("def extendBody : List Nix.Store.EStmt := %s" % extend_shape)
     L.append("")
     L.append("end Nix.DimLink.Gen")
     return {TARGET: "\n".join(L) + "\n"}
